@@ -16,6 +16,15 @@ CONSTRUCTS = {
     "list_comp": ("", ["xs = [i + a for i in range(3)]"]),
     "list_comp_nested": ("", ["xs = [i + j for i in range(2) for j in range(a)]"]),
     "list_ann_local": ("", ["xs: list[int] = [a]"]),
+    # the same constructs nested inside other expressions
+    "list_comp_in_gen_elt": ("", ["xs = array([y + a for y in range(x)] for x in range(3))"]),
+    "list_lit_in_gen_elt": ("", ["xs = array([x, a] for x in range(3))"]),
+    "list_comp_in_tuple": ("", ["tl = ([i for i in range(a)], 1)"]),
+    "list_lit_in_ifexp": ("", ["xs = [a] if a > 0 else [a, a]"]),
+    "list_comp_in_list_comp": ("", ["xs = [[j + a for j in range(i)] for i in range(3)]"]),
+    "list_comp_in_generic_call": ("TG = guppy.type_var(\"TG\", copyable=False, droppable=False)\n\n@guppy.declare\ndef idg(x: TG @owned) -> TG: ...\n\n",
+                                  ["xs = idg([i + a for i in range(3)])"]),
+    "tensor_in_tuple": (_TF, ["tt = ((tf, tg)(a, True), 1)"]),
     "list_arg": ("@guppy.declare\ndef la(xs: list[int]) -> None: ...\n\n", ["la([a, 1])"]),
     "tensor_syn": (_TF, ["t1, t2 = (tf, tg)(a, True)"]),
     "tensor_chk": (_TF, ["t3: tuple[int, bool] = (tf, tg)(a, True)"]),
